@@ -100,7 +100,7 @@ fn maximal_suffix(x: &[u8], rev: bool) -> (usize, usize) {
     let n = x.len();
     let (mut i, mut j, mut k, mut p) = (0, 1, 1, 1);
 
-    while j + k <= n {
+    while j + k < n {
         let ap = x[i + k];
         let a = x[j + k];
         if (a < ap && !rev) || (a > ap && rev) {
